@@ -37,7 +37,7 @@ REGISTRY = {
     "C13": ["digitsVal_eq_posValue", "digitsVal_append_digit", "ratio_literal_exact", "percent_literal_exact",
             "percent_frac_literal_exact", "portion_var_ratio", "portion_var_percent", "portion_var_ratio_rejected",
             "roundtrip_string", "roundtrip_asset", "roundtrip_account", "roundtrip_portion", "roundtrip_number",
-            "roundtrip_monetary"], "C14": ["show_never_panics", "syntax_error_range_wf", "show_syntax_error_never_panics", "splitLines_ne_nil",
+            "roundtrip_monetary"], "C14": ["parse_text_sound", "parse_sound", "parse_unparse", "lex_ident_not_keyword", "lex_fixed_text", "show_never_panics", "syntax_error_range_wf", "show_syntax_error_never_panics", "splitLines_ne_nil",
             "percent_literal_exact", "percent_frac_literal_exact", "ratio_literal_exact"],
     "C15": ["layout_insertion_fails_comment_after_asset", "layout_insertion_fails_newline_after_slashes", "parse_render", "parse_unparse", "parse_unparse_expr", "unparse_numbers_in_range", "lex_render", "best_of_lexable", "parse_ranges_ok", "parseTokens_ranges_ok", "parseTokens_call_ranges_nodup", "rangesOk_nested", "parseTokens_exprs_nested", "parse_left_assoc", "parse_layout_independent", "parse_complete", "lex_sorted", "lex_located", "lexLoop_fuel_irrelevant", "lex_lengths", "gtEq_refl", "gtEq_total", "gtEq_trans", "gtEq_antisymm", "gtEq_iff", "contains_mono", "contains_disjoint"],
     "C16": ["text_names_exact", "unbound_exact", "duplicate_exact", "unused_exact", "resolution_exact", "valid_expr_no_error", "valid_has_no_error"], "C17": ["text_clean_check_sound", "parse_parser_inv", "clean_check_sound", "silent_check_no_sendall_shape_error", "checkExpression_sound",
